@@ -21,12 +21,16 @@ def stateAfter (hosts : String) (lines : List String) : Option State :=
     (`err_exit "hostlist_push failed"`) -/
 theorem push_fail_counterexample : runLines "h[0-3]" ["setplugs P[1]x[ 0"] = some ([[]], .exit 1) := by decide +kernel
 
-/-- `settimeout` stores what it has just reported invalid; the next request for a known plug ends the helper
-    (`err_exit "cmd_timeout overflow"`); a maximal valid value does the same -/
-theorem timeout_counterexample :
+/-- F39, repaired (7f04ec7): `settimeout` used to store what it had just reported invalid (and to accept values up to
+    `LONG_MAX`), and the next request for a known plug ended the helper (`err_exit "cmd_timeout overflow"`).  Now the
+    same lines come back to the prompt: the old value stays; values above `INT_MAX` are invalid -/
+theorem timeout_f39_fixed :
     runLines "h[0-3]" ["setstatpath s", "settimeout 99999999999999999999", "stat zz", "stat h0"] =
-      some ([[], [lit "invalid timeout specified"], [lit "unknown plug specified: zz"], []], .exit 1) ∧
-    runLines "h[0-3]" ["setstatpath s", "settimeout 9223372036854775807", "stat h0"] = some ([[], [], []], .exit 1) := by
+      some ([[], [lit "invalid timeout specified"], [lit "unknown plug specified: zz"], [lit "h0: off"]], .cont) ∧
+    runLines "h[0-3]" ["setstatpath s", "settimeout 9223372036854775807", "stat h0", "settimeout 2147483648",
+        "settimeout 2147483647", "stat h1"] =
+      some ([[], [lit "invalid timeout specified"], [lit "h0: off"], [lit "invalid timeout specified"], [],
+             [lit "h1: off"]], .cont) := by
   decide +kernel
 
 /-- a parent that is not defined is accepted by `setplugs`; `stat` of the child fails `assert(root_plugname)` -/
@@ -105,6 +109,7 @@ theorem exState_names : exState.plugMap.map (·.1) =
 
 theorem exState_safe : Safe exState := by decide +kernel
 theorem exState_TInv : TInv exState := by decide +kernel
+theorem exState_TimeoutOK : TimeoutOK exState := by decide +kernel
 theorem exState_Link : Link exState := by decide +kernel
 
 /-- a state that is not `Safe`: a parent that is not defined -/
